@@ -27,6 +27,11 @@ META = dict(
 GEN = {
     # async_io_buf::next_size (the second next_size of the TU; the first one is hash_map<>::next_size from private/hash_map.h)
     'Gen_C03': dict(src='src/http_response.cpp', functions=[('next_size', 'g_next_size', 'next_size', 1)]),
+    # FastCGI record size limit (static const local of fastcgi::format_output)
+    'Gen_C03_fcgi': dict(src='src/fastcgi_api.cpp', consts=[('max_packet_len', 'g_max_packet_len')]),
+    # iovec limit of stream_socket::readv/writev (first definition in the file)
+    'Gen_C03_sock': dict(src='booster/lib/aio/src/stream_socket.cpp', consts=[('max_vec_size', 'g_max_vec_size')],
+                         incs=vlib.repo_incs() + [vlib.REPO + '/booster/lib/aio/src']),
 }
 
 PATTERN = bytes(((i * 131 + 7) % 251) for i in range(251 * 4))
@@ -569,6 +574,9 @@ def gen_cases(ctx):
                     ops = ['u0'] + ops
                 sched = rnd_sched(rng, app == '/aresp', [65535, 65536, 65543, 65544, n])
                 cases.append(make_case(proto, [Rq(app, ops, h11, ka)], sched))
+    # more than 16 gather entries in one write: stream_socket::writev truncates the iovec (natural short write)
+    for app in ('/resp', '/aresp'):
+        cases.append(make_case('fcgi', [Rq(app, ['b0', 'w10', 'w%d' % (5 * 65535 + 7)])], [] if app == '/resp' else [0, 100000]))
     if not ctx.quick():
         for n in (300 * 1024, 400 * 1024 + 3):
             for app in ('/resp', '/aresp'):
